@@ -521,6 +521,8 @@ def c10(sc, io):
             if st != "Complete" and not live:
                 if any(any(a == "Execution complete" and b_ == "Executable" for a, b_ in zip(o["log"], o["log"][1:])) for o in os_):
                     res.append(("C10-reopened-after-complete", "trade %s is %s although all its orders are complete: one of them was re-opened by a late FAILURE response after the trade had completed, and completing again does not complete the trade a second time" % (t, st), det))
+                elif any(len(o["log"]) >= 2 and o["log"][-2:] == ["Replacing", "Execution complete"] for o in os_):
+                    res.append(("C10-failed-replace-leaves-phantom-order", "every order of trade %s in the blotter is complete but the trade is %s: the placement leg of a simulated replace failed and the replacement order that was never placed stays in trade.orders (status None, not complete), so the trade can never complete and the runner slot stays charged" % (t, st), det))
                 elif any(o["status"] == "Violation" and len(o["log"]) > 1 for o in os_):
                     res.append(("C10-live-order-marked-violation", "every order of a trade is complete but the trade is %s: a control refusing a request marked a live order VIOLATION, which never completes the trade (slot locked)" % st, det))
                 else:
@@ -539,6 +541,8 @@ def c10(sc, io):
             if c["live"] != nl:
                 viol = any(o["status"] == "Violation" and len(o["log"]) > 1 for os_ in trades.values() for o in os_ if o["sel"] == k)
                 reop = any(any(a == "Execution complete" and b_ == "Executable" for a, b_ in zip(o["log"], o["log"][1:])) for os_ in trades.values() for o in os_ if o["sel"] == k)
-                key = "C10-live-order-marked-violation" if viol else ("C10-reopened-after-complete" if reop else "C10-live-count")
+                phantom = any(len(o["log"]) >= 2 and o["log"][-2:] == ["Replacing", "Execution complete"] and os_[0]["trade_status"] != "Complete" and all(x["complete"] for x in os_)
+                              for os_ in trades.values() for o in os_ if o["sel"] == k)
+                key = "C10-live-order-marked-violation" if viol else ("C10-reopened-after-complete" if reop else ("C10-failed-replace-leaves-phantom-order" if phantom else "C10-live-count"))
                 res.append((key, "context of selection %s is charged %d live trades, %d trades still have an order that is not complete" % (k, c["live"], nl), det))
     return res
